@@ -73,3 +73,8 @@ Definition dp_value (a : agg) (distinct : bool) (rows : list drow) : Q :=
 (* no value is held by two units *)
 Definition shared (rows : list drow) : bool :=
   existsb (fun r => existsb (fun r' => negb (fst r =? fst r')%Z && oq_eqb (snd r) (snd r')) rows) rows.
+
+(* ---------- pagination above the aggregation: ORDER BY the keys LIMIT lim OFFSET off ----------
+   The rewriting maps the groups one to one (same keys, same order once sorted by the keys); a window of the rewritten
+   result is then the rewritten window. *)
+Definition window {A : Type} (lim off : nat) (l : list A) : list A := firstn lim (skipn off l).
